@@ -4,7 +4,7 @@
 From Coq Require Import ExtrOcamlBasic.
 From Coq Require Import Strings.Byte NArith ZArith List.
 From Coq Require Import Strings.String.
-From LLIR Require Import Lib.Bytes Model.Natsort Model.Assemble Model.Writer Gen.Enums Model.GoEval Proofs.EnumProofs.
+From LLIR Require Import Lib.Bytes Model.Natsort Model.Assemble Model.Writer Gen.Enums Model.GoEval Proofs.EnumProofs Model.IntLit.
 
 Definition byte_of_N_total (n : N) : byte := match Byte.of_N n with Some b => b | None => x00 end.
 (* C19: run the chunks against a writer failing after k bytes: (size, failed?, delivered, calls) *)
@@ -15,15 +15,22 @@ Definition writeto_fail_after (k : nat) (chunks : list bytes) : nat * bool * byt
 Definition enum_str (ty : string) (v : Z) : bytes := enum_string ty v.
 Definition enum_from (ty : string) (s : bytes) : option Z :=
   match enum_table ty with
-  | Some t => match from_string t s with EnumProofs.Ok v => Some v | Panic => None end
+  | Some t => match from_string t s with EnumProofs.Ok v => Some v | EnumProofs.Panic => None end
   | None => None
   end.
 (* asm.irCallingConv on  cc N  (theorem C18_numeric_calling_convention_read over the regenerated body) *)
 Definition cc_read (n : Z) : Z := if (n =? 0)%Z then 1%Z else n.
 Definition flagset_value (ty : string) (names : list bytes) : option Z :=
   fold_left (fun acc s => match acc, enum_from ty s with Some a, Some v => Some (Z.lor a v) | _, _ => None end) names (Some 0%Z).
+(* C09 *)
+(* outcomes cross the extraction boundary as (code, payload): 0 Ok, 1 Err, 2 Panic -- so that the OCaml
+   side does not depend on how extraction renames the constructors of the models' outcome types *)
+Definition c09_parse (w : N) (s : bytes) : nat * Z :=
+  match parse_int w s with IntLit.Ok v => (0, v) | IntLit.Err => (1, 0%Z) | IntLit.Panic => (2, 0%Z) end.
+Definition c09_ident (hex : bool) (w : N) (x : Z) : nat * bytes :=
+  match ident (fun _ => hex) w x with IntLit.Ok v => (0, v) | IntLit.Err => (1, nil) | IntLit.Panic => (2, nil) end.
 Definition sort_ids (l : list Z) : list Z := isort Z.ltb l.
 
 Extraction "model.ml" byte_of_N_total Byte.to_N
   Natsort.less Natsort.sort_strings sort_ids
-  writeto_fail_after enum_str enum_from cc_read flagset_value.
+  writeto_fail_after enum_str enum_from cc_read flagset_value c09_parse c09_ident.
